@@ -24,7 +24,7 @@ var allInvalid = []string{
 	model.InvUnknownType, model.InvUnknownGrouping, model.InvUndefinedBase, model.InvDupSibling, model.InvDupUses,
 	model.InvBadRange, model.InvBadConfig,
 	model.InvDevMissing, model.InvDevAddDefault, model.InvDevDelDefault, model.InvDevDelOther,
-	model.InvDevMinNonList, model.InvDevDelMin, model.InvDevBadType, model.InvDevUnknownKind, model.InvDevGone, model.InvDevDoubleNS,
+	model.InvDevMinNonList, model.InvDevDelMin, model.InvDevBadType, model.InvDevUnknownKind, model.InvDevGone, model.InvDevDoubleNS, model.InvDevBadPrefix,
 	model.InvFanoutChain,
 }
 
